@@ -161,10 +161,23 @@ func c13cr(c *Ctx, f *rdr.File, cas c13case) {
 			return
 		}
 		var got []byte
-		buf := make([]byte, cas.Buf)
+		bufN := cas.Buf
+		if bufN < 0 {
+			bufN = -bufN // negative: every read is preceded by a zero-length Read
+		}
+		buf := make([]byte, bufN)
 		sawEOF := false
 		var rerr error
 		for it := 0; it < 4*len(f.Flat)+8*len(cl)+16; it++ {
+			if cas.Buf < 0 {
+				if n0, err0 := cr.Read(buf[:0]); n0 != 0 || err0 != nil && err0 != io.EOF {
+					rerr = fmt.Errorf("zero-length Read returned %d, %v", n0, err0)
+					break
+				} else if err0 == io.EOF {
+					sawEOF = true
+					break
+				}
+			}
 			n, err := cr.Read(buf)
 			got = append(got, buf[:n]...)
 			if err == io.EOF {
@@ -194,7 +207,7 @@ func c13cr(c *Ctx, f *rdr.File, cas c13case) {
 }
 
 func c13(c *Ctx) {
-	c.Rule = "BAM: the uncompressed stream of a header and 5 records (reference BAM encoder) re-blocked by the independent BGZF encoder at every set of <=2 cut positions from {every record boundary, boundary-1, +1, +2 (inside the length prefix), mid-record}, with and without an empty block after a cut; sequential read notes the chunk of each record; then for every list of <=2 (thorough <=3) chunks [Begin_i,End_j] in every order (ordered, descending, overlapping, repeated) the Iterator must yield exactly the records i..j of each chunk in list order; rd in {1,2}. ChunkReader: the six C02 files plus [2 4]+EOF and [1 1 4] (a last block long enough to be consumed in several reads with data after the chunk end); every list of <=2 (thorough <=3) chunks, non-overlapping and ascending, with boundaries over ALL virtual offsets of the file (both spellings of a block end); buffer sizes {1,2,3,64}; oracle = flat bytes between each Begin and End, concatenated, then io.EOF within a horizon. Non-trivial: lists with a chunk crossing a block boundary or with >=2 chunks."
+	c.Rule = "BAM: the uncompressed stream of a header and 5 records (reference BAM encoder) re-blocked by the independent BGZF encoder at every set of <=2 cut positions from {every record boundary, boundary-1, +1, +2 (inside the length prefix), mid-record}, with and without an empty block after a cut; sequential read notes the chunk of each record; then for every list of <=2 (thorough <=3) chunks [Begin_i,End_j] in every order (ordered, descending, overlapping, repeated) the Iterator must yield exactly the records i..j of each chunk in list order; rd in {1,2}. ChunkReader: the six C02 files plus [2 4]+EOF and [1 1 4] (a last block long enough to be consumed in several reads with data after the chunk end); every list of <=2 (thorough <=3) chunks, non-overlapping and ascending, with boundaries over ALL virtual offsets of the file (both spellings of a block end); buffer sizes {1,2,3,64} and 2 with a zero-length Read before every Read; oracle = flat bytes between each Begin and End, concatenated, then io.EOF within a horizon. Non-trivial: lists with a chunk crossing a block boundary or with >=2 chunks."
 	stream, bounds, names := c13stream()
 	if c.Replay != nil {
 		var cas c13case
@@ -339,14 +352,14 @@ func c13(c *Ctx) {
 			}
 		}
 		parallel(len(clists), func(i int) {
-			for _, bufN := range []int{1, 2, 3, 64} {
+			for _, bufN := range []int{1, 2, 3, 64, -2} {
 				c13cr(c, f, c13case{Kind: "chunkreader", Lens: rf.lens, Marker: rf.marker, Chunks: clists[i], Buf: bufN})
 			}
 		})
-		crn += int64(len(clists) * 4)
+		crn += int64(len(clists) * 5)
 		for _, l := range clists {
 			if len(l) >= 2 || l[0][0] != l[0][2] {
-				crnt += 4
+				crnt += 5
 			}
 		}
 	}
